@@ -1,3 +1,4 @@
+import GohbaseVerif.Gen.Exits
 import GohbaseVerif.Lemmas.ConnCache
 import GohbaseVerif.Gen.Selects
 /-!
@@ -105,5 +106,13 @@ theorem live_connection_is_cached {flag : Bool} {s : State} (h : Reachable flag 
 /-- negative: without the intervening `clientDown` no second object appears -/
 example : (run true init [.spawnEstablish, .estPut 5 1, .estPut 5 2, .estPut 5 3]).map
     (fun s => s.conns.length) = some 1 := by decide
+
+end GV.ConnCache
+
+namespace GV.ConnCache
+open GV.Gen
+
+/-- Regenerated from region/new.go: the dialer is called only inside `dialOnce.Do`. -/
+theorem dialer_only_under_once_in_source : Exits.dialerOnlyInsideOnce = true := by decide
 
 end GV.ConnCache
